@@ -260,6 +260,9 @@ func (x *workPullingProducerController) PostStop(ctx *Context) error {
 // Receive processes controller protocol traffic, producer handshakes,
 // lifecycle notifications, and timer ticks.
 func (x *workPullingProducerController) Receive(ctx *ReceiveContext) {
+	if verifIntercept(x, ctx) {
+		return
+	}
 	switch msg := ctx.Message().(type) {
 	case *PostStart:
 		x.handlePostStart(ctx)
